@@ -43,6 +43,7 @@ type Config struct {
 	AlwaysResub       bool   `json:"always_resub,omitempty"`
 	DirectQoS0        bool   `json:"direct_qos0,omitempty"`
 	MaxPayloadLen     int    `json:"max_payload,omitempty"`
+	OnErrorReenters   bool   `json:"onerror_reenters,omitempty"` // the application's OnError callback publishes a QoS 0 diagnostic through the same client
 
 	BrokerMethod string   `json:"broker_method,omitempty"` // "A" (deliver on PUBLISH) | "B" (deliver on PUBREL)
 	EarlyReply   bool     `json:"early_reply,omitempty"`   // the broker's answer is in the read buffer before Write returns (single-writer scenarios only)
@@ -83,6 +84,7 @@ type MuxReg struct {
 	Filter string `json:"filter"`
 	Async  bool   `json:"async,omitempty"`
 	ParkUs int64  `json:"park_us,omitempty"` // handler parks this long before scribbling
+	Retain bool   `json:"retain,omitempty"`  // the handler returns at once and goes on using its message on a goroutine of its own
 }
 
 // Op is one application action.
